@@ -110,6 +110,8 @@ pub fn evidence_json(st: &Stats, m: &EvidenceMeta) -> J {
                 ("fired_by_solver", kind_table(&st.fired_by_kind)),
                 ("planned_but_not_reached_by_solver", kind_table(&st.not_reached_by_kind)),
                 ("fired_by_consumer_mode", map_table(&st.fired_by_drive)),
+                ("distinct_instantiations_with_a_fired_fault", J::U(st.fired_instantiations.len() as u64)),
+                ("instantiation_axes", J::s("7 solvers x {Const<1..4>, Dyn(1..6)} x {f64, Complex<f64>} x user data {(), Counter}")),
                 ("surfaced_as_err_item", J::U(st.surfaced)),
                 ("surfaced_error_was_not_the_first_fired", J::U(st.surfaced_not_first)),
                 ("max_derivative_calls_after_failing_call", J::U(st.calls_after_fire_max)),
